@@ -304,6 +304,38 @@ pub fn run(ctx: &Ctx) -> i32 {
         Acc::merge,
         acc_zero,
     );
+    // 4c. whatever the reader itself produces is writable: every text of <= 4 lexemes over an alphabet with number
+    // prefixes, brackets, quote characters, the dot, the backslash and a few atoms; if it reads as one datum, that
+    // datum goes through the same trip
+    const READER_LEXEMES: [&str; 22] = ["(", ")", "#(", "'", "`", ",", ".", " ", "a", "1", "-", "#x", "#e", "#b", "#i", "f", "\\", "\"", "#\\", "#t", "/", ";"];
+    let n_rl = space(READER_LEXEMES.len() as u64, 4);
+    let a_reader = par_fold(
+        n_rl,
+        1024,
+        || None::<Vm>,
+        |vm, acc, i| {
+            // decode i as a lexeme string (lengths 0..=4)
+            let k = READER_LEXEMES.len() as u64;
+            let (mut j, mut len, mut block) = (i, 0u32, 1u64);
+            while j >= block {
+                j -= block;
+                block *= k;
+                len += 1;
+            }
+            let mut text = String::new();
+            for _ in 0..len {
+                text.push_str(READER_LEXEMES[(j % k) as usize]);
+                j /= k;
+            }
+            let parsed = std::panic::catch_unwind(|| parse::parse_text(&text).ok().and_then(|(c, rest)| if rest.is_none() { Some(c) } else { None }));
+            if let Ok(Some(d)) = parsed {
+                acc.count("reader_produced_data", 1);
+                trip(acc, vm, &d, "reader-produced", false);
+            }
+        },
+        Acc::merge,
+        acc_zero,
+    );
     // 5. containers: shape chains and small trees
     let n_leaves = data::leaf_atoms().len();
     let depth = std::env::var("C10_DEPTH").ok().and_then(|s| s.parse().ok()).unwrap_or(ctx.tier.pick(4u32, 6u32));
@@ -344,11 +376,11 @@ pub fn run(ctx: &Ctx) -> i32 {
     rep.extra("container_depth", json!(depth));
     rep.extra("small_trees", json!(n_trees));
     let mut acc = Acc::new();
-    for a in [a_chars, a_str, a_int, a_dbl, a_sym, a_symname, a_cont, a_tree] {
+    for a in [a_chars, a_str, a_int, a_dbl, a_sym, a_symname, a_reader, a_cont, a_tree] {
         acc = Acc::merge(acc, a);
     }
     rep.rule = format!(
-        "datum d -> format!(\"{{:#}}\") -> parse_text -> d' must be one datum identical to d in structure, value and exactness, and write(d') = write(d); Vm::eval((quote d)) must return d. Enumerated: every Unicode scalar value as a character, as a one-character string and as a list element; all strings of <= 3 characters over {:?}; {} exact numbers (integers k*2^e+d around the fixnum/bignum boundary, the C08 palette in every representation, reduced rationals); doubles structurally exhaustively: every exponent field x {} mantissa patterns x both signs = {} plus {} special values; every token of <= 3 characters over a 23-character alphabet (<= 2 over 27) that the reader classifies as a symbol; every scalar value as a one-character symbol name and as the first / second character of a two-character name, interned as string->symbol does (3.3 M symbols); all container chains of depth <= {} over 13 one-hole shapes x {} leaves; all trees of <= {} nodes over 6 atoms. A case is non-trivial when the full trip succeeded; cases are distinct data.",
+        "datum d -> format!(\"{{:#}}\") -> parse_text -> d' must be one datum identical to d in structure, value and exactness, and write(d') = write(d); Vm::eval((quote d)) must return d. Enumerated: every Unicode scalar value as a character, as a one-character string and as a list element; all strings of <= 3 characters over {:?}; {} exact numbers (integers k*2^e+d around the fixnum/bignum boundary, the C08 palette in every representation, reduced rationals); doubles structurally exhaustively: every exponent field x {} mantissa patterns x both signs = {} plus {} special values; every token of <= 3 characters over a 23-character alphabet (<= 2 over 27) that the reader classifies as a symbol; every scalar value as a one-character symbol name and as the first / second character of a two-character name, interned as string->symbol does (3.3 M symbols); every datum the reader produces from a text of <= 4 lexemes over 22 lexemes (number prefixes, brackets, quote characters, dot, backslash, atoms); all container chains of depth <= {} over 13 one-hole shapes x {} leaves; all trees of <= {} nodes over 6 atoms. A case is non-trivial when the full trip succeeded; cases are distinct data.",
         STR_CHARS, n_ints, 24, nd, specials.len(), depth, n_leaves, ctx.tier.pick(3, 4)
     );
     rep.assumptions.push("infinities and NaN are outside the property; of the 2^63 finite doubles the structured set above is covered, the rest is not claimed".into());
